@@ -780,6 +780,9 @@ func instImmediateBranch(interp *Interpreter, pc ProgramCounter, skipLength Prog
 	if reason != ExitContinue {
 		return reason, pc
 	}
+	if !branchCondition {
+		return reason, pc + skipLength + 1
+	}
 
 	return reason, newPC
 }
@@ -1663,6 +1666,9 @@ func instBranch(interp *Interpreter, pc ProgramCounter, skipLength ProgramCounte
 	if reason != ExitContinue {
 		pvmLogger.Errorf("instBranch branch error at pc: %d, opcode: %s", pc, zeta[opcode(interp.Program.InstructionData[pc])])
 		return ExitReason(reason), pc
+	}
+	if !branchCondition {
+		return reason, pc + skipLength + 1
 	}
 
 	return reason, newPC
